@@ -15,6 +15,7 @@ def install_all(reg):
     trappist.install(reg)
     trappist.install_models(reg)
     trappist.install_programs(reg)
+    trappist.install_async_bodies(reg)
     succession_diagram.install(reg)
     succession_diagram._install_skip(reg)
     succession_diagram._install_skip2(reg)
